@@ -111,9 +111,10 @@ type trackPlan struct {
 	frameTicks []int64 // cyclic frame durations
 	gop        int
 	// audio
-	opusCfg   int
-	opusMixed bool
-	multiAU   int
+	opusCfg    int
+	opusMixed  bool
+	exactStart *int64 // exact profile: first PTS in ticks
+	multiAU    int
 }
 
 type event struct {
@@ -121,6 +122,13 @@ type event struct {
 	order int
 	track int
 	fn    func(writeIdx int) Write
+}
+
+func sign(f float64) float64 {
+	if f < 0 {
+		return -1
+	}
+	return 1
 }
 
 // Gen generates case #index for the given seed.
@@ -365,10 +373,20 @@ func Gen(seed int64, index int, o GenOpts) *Case {
 	lp := plans[lead]
 	if o.Profile == "exact" && lp.spec.Kind.IsVideo() && !lp.spec.BFrames {
 		rate := int64(lp.spec.ClockRate)
-		base := rate / 30
-		if base == 0 {
-			base = 1
+		// frame duration and start time are integral numbers of nanoseconds, so that "exactly at
+		// SegmentMinDuration" is exact for the code under test as well
+		g := rate
+		for b := int64(1000000000); b != 0; {
+			g, b = b, g%b
 		}
+		step := rate / g // smallest tick count that is an integral number of ns
+		base := (rate / 25 / step) * step
+		if base == 0 {
+			base = step
+		}
+		lp.startSec = float64(int64(lp.startSec*float64(rate))/step*step) / float64(rate)
+		exactStart := int64(lp.startSec*float64(rate)+0.5*sign(lp.startSec)) / step * step
+		lp.exactStart = &exactStart
 		lp.gop = 5 + pick(20)
 		lp.frameTicks = []int64{base}
 		gopTicks := base * int64(lp.gop)
@@ -484,6 +502,12 @@ func Gen(seed int64, index int, o GenOpts) *Case {
 			pts0 := int64(p.startSec * rate)
 			if float64(pts0)/rate < -10 {
 				pts0++
+			}
+			if p.exactStart != nil {
+				pts0 = *p.exactStart
+				if float64(pts0)/rate < -10 {
+					pts0 = int64(-10 * rate)
+				}
 			}
 			midGOP := 0
 			if chance(0.25) && !sp.BFrames {
